@@ -121,6 +121,7 @@ type thread struct {
 	op     *op
 	state  tstate
 	hist   uint64
+	vc     vclock
 	log    []string
 	nobj   int
 	nspawn int
@@ -131,18 +132,20 @@ type thread struct {
 }
 
 type item struct {
-	v any
-	h uint64
+	v  any
+	h  uint64
+	vc vclock
 }
 
 type chanState struct {
-	cid    uint64
-	id     int
-	keep   any // the real channel (identity token), kept alive
-	cap    int
-	buf    []item
-	closed bool
-	name   string
+	cid     uint64
+	id      int
+	keep    any // the real channel (identity token), kept alive
+	cap     int
+	buf     []item
+	closed  bool
+	name    string
+	closeVC vclock
 }
 
 type syncState struct {
@@ -154,6 +157,8 @@ type syncState struct {
 	holder  int
 	count   int // waitgroup counter / shared value
 	hash    uint64
+	vc      vclock // released by Unlock / Once completion / Done / atomic or shared access
+	rvc     vclock // released by RUnlock
 }
 
 type timerState struct {
@@ -227,6 +232,7 @@ type execution struct {
 	gdigest        uint64
 	trace          []string
 	user           any
+	mem            map[uintptr]*memState
 	newStates      int
 	transitionsNew int
 }
@@ -247,6 +253,8 @@ type Options struct {
 	Prune    bool
 	MaxSteps int
 	Trace    bool
+	// Race: check the memory accesses instrumented by vxform -race against happens-before (vrt/race.go).
+	Race bool
 }
 
 // Result of one execution.
@@ -335,7 +343,10 @@ func (e *execution) newThread(name string, body func(), parent *thread) *thread 
 		t.cid = mix(mix(parent.cid, hSpawn), uint64(parent.nspawn))
 		t.hist = mix(mix(parent.hist, hSpawn), uint64(parent.nspawn))
 		parent.nspawn++
+		parent.tick()
+		t.vc = parent.vc.copy()
 	}
+	t.tick()
 	if name == "" {
 		t.name = fmt.Sprintf("t%d", t.id)
 		t.spawnedByCode = true
@@ -809,9 +820,14 @@ func (e *execution) apply(tr transition) {
 				u.op.chosen = tr.palt
 				u.hist = mix(mix(mix(u.hist, uint64(tr.palt)), hRecv), t.hist)
 				t.hist = mix(t.hist, hSend)
+				// unbuffered: the send happens before the receive completes and the receive before the send completes
+				sv, rv := t.vc.copy(), u.vc.copy()
+				u.acquire(sv)
+				t.acquire(rv)
+				u.tick()
 				e.complete(u)
 			default:
-				c.ch.buf = append(c.ch.buf, item{c.val, t.hist})
+				c.ch.buf = append(c.ch.buf, item{v: c.val, h: t.hist, vc: t.vc.copy()})
 				t.hist = mix(t.hist, hSend)
 			}
 		} else {
@@ -820,9 +836,11 @@ func (e *execution) apply(tr transition) {
 				c.ch.buf = append([]item(nil), c.ch.buf[1:]...)
 				c.val, c.ok = it.v, true
 				t.hist = mix(mix(t.hist, hRecv), it.h)
+				t.acquire(it.vc)
 			} else {
 				c.val, c.ok = nil, false
 				t.hist = mix(t.hist, hClosed)
+				t.acquire(c.ch.closeVC)
 			}
 		}
 	case opClose:
@@ -833,6 +851,7 @@ func (e *execution) apply(tr transition) {
 			t.hist = mix(t.hist, hPanic)
 		} else {
 			o.ch.closed = true
+			o.ch.closeVC = t.vc.copy()
 			t.hist = mix(t.hist, hCloseOK)
 		}
 	case opOnce:
@@ -843,35 +862,45 @@ func (e *execution) apply(tr transition) {
 		} else {
 			o.chosen = 0
 			t.hist = mix(mix(t.hist, hOnceDone), o.obj.hash)
+			t.acquire(o.obj.vc)
 		}
 	case opLock:
 		o.obj.state = 1
 		o.obj.holder = t.id
 		t.hist = mix(mix(t.hist, hLock), o.obj.hash)
+		t.acquire(o.obj.vc)
+		t.acquire(o.obj.rvc)
 	case opRLock:
 		o.obj.readers++
 		t.hist = mix(mix(t.hist, hLock), o.obj.hash)
+		t.acquire(o.obj.vc)
 	case opUnlock:
 		if o.obj.state != 1 {
 			o.panicMsg = "sync: unlock of unlocked mutex"
 		}
 		o.obj.state = 0
 		o.obj.hash = mix(o.obj.hash, t.hist)
+		o.obj.vc = t.vc.copy()
 	case opRUnlock:
 		if o.obj.readers <= 0 {
 			o.panicMsg = "sync: RUnlock of unlocked RWMutex"
 		} else {
 			o.obj.readers--
 		}
+		o.obj.rvc = joinVC(o.obj.rvc, t.vc)
 	case opChoose:
 		o.chosen = tr.alt
 		t.hist = mix(mix(t.hist, hChoose), uint64(tr.alt))
 	case opJoin:
 		for _, u := range o.join {
 			t.hist = mix(t.hist, u.hist)
+			t.acquire(u.vc)
 		}
-	case opYield, opWGWait:
+	case opWGWait:
+		t.acquire(o.obj.vc)
+	case opYield:
 	}
+	t.tick()
 	e.complete(t)
 }
 
